@@ -622,8 +622,23 @@ def resolveAll (rot : Rat → Rat × Rat → Option (Rat × Rat)) (n : Netlist) 
       | .error m => .error m
       | .ok rs => .ok (all, rs)
 
+/-- A node name may occur twice in one component: at an UNDRAWN position (`node_pinnames` entry `''`, e.g. the reference
+    node of an E-opamp) and at a drawn pin (`E1 out 0 opamp 0 in`: non-inverting input grounded).  The hints mean the
+    drawn pin; `Cpt.required_pins` looks the name up with `node_names.index(name)`, finds the undrawn position first and
+    drops the pin (then `_xlink` raises IndexError).  For the MEANING of the hints the undrawn occurrence is renamed. -/
+def dedupUndrawn (e : Elt) : Elt :=
+  match lookupRow e.cls with
+  | none => e
+  | some row =>
+    let drawn := (row.nodePinnames.zip e.nodes).filterMap (fun pn => if pn.1 == "" then none else some pn.2)
+    { e with nodes := (row.nodePinnames.zip e.nodes).map (fun pn => if pn.1 == "" && drawn.contains pn.2 then pn.2 ++ "#ref" else pn.2)
+                      ++ e.nodes.drop row.nodePinnames.length }
+
+def Netlist.meaning (n : Netlist) : Netlist := { n with elts := n.elts.map dedupUndrawn }
+
 /-- spec of a netlist: drawn nodes and hint items, with the rotation a hint *means* -/
-def specOf (n : Netlist) : Except String Spec := do
+def specOf (n0 : Netlist) : Except String Spec := do
+  let n := n0.meaning
   let (all, rs) ← resolveAll (rotMeanP n.rots) n
   if !(decide (0 < n.spacing)) then throw "bad-spacing"
   if !(rs.all (fun r => r.skip || match r.specItem n.spacing with
@@ -720,7 +735,8 @@ def placeAxis (k : Rat) (nodes : List String) (links : List (String × String)) 
 
 /-- witness layout for the consistency of a hint set: longest path over the graphs the hints *mean*
     (exact quarter-turn rotation), so that it also exists where the code's rotation table does not apply -/
-def placeModel (n : Netlist) : Except String Layout := do
+def placeModel (n0 : Netlist) : Except String Layout := do
+  let n := n0.meaning
   let (all, rs) ← resolveAll (rotMeanP n.rots) n
   let g := makeGraphs rs
   let some xs := placeAxis n.spacing all g.xlinks g.xedges | throw "x-cycle"
